@@ -356,9 +356,15 @@ func (m *mux) OpenChannel(chanType string, extra []byte) (Channel, <-chan *Reque
 func (m *mux) openChannel(chanType string, extra []byte) (*channel, error) {
 	ch := m.newChannel(chanType, channelOutbound, extra)
 
+	// The channel is already reachable through the channel list, so the
+	// peer can make handleData update myWindow concurrently.
+	ch.windowMu.Lock()
+	myWindow := ch.myWindow
+	ch.windowMu.Unlock()
+
 	open := channelOpenMsg{
 		ChanType:         chanType,
-		PeersWindow:      ch.myWindow,
+		PeersWindow:      myWindow,
 		MaxPacketSize:    ch.maxIncomingPayload,
 		TypeSpecificData: extra,
 		PeersID:          ch.localId,
